@@ -34,7 +34,7 @@ COMPONENTS = {
     "seam": ["order/choice of derivations and selections (PRNG)", "numba.prange -> SimPrange (JIT off): workers 1..16, chunked or fully permuted", "numba.set_num_threads (JIT on, seeded count)", "module state via fork per run"],
     "uncontrolled": ["OpenMP interleaving inside the compiled latitude scan (JIT on)"],
 }
-BUDGET = {"quick": {"off_runs": 300, "on_runs": 30, "timeout": 420, "run_timeout": 180}, "thorough": {"budget_s": 900, "run_timeout": 300}}
+BUDGET = {"quick": {"off_runs": 700, "on_runs": 40, "timeout": 420, "run_timeout": 180}, "thorough": {"budget_s": 900, "run_timeout": 300}}
 
 MESHES = [
     ("band", {"nx": 8, "ny": 3}),
@@ -48,7 +48,7 @@ MESHES = [
     ("cap", {}),
     ("two", {}),
 ]
-FILES = [{"kind": "file", "path": "ugrid/quad-hexagon/grid.nc"}, {"kind": "file", "path": "mpas/QU/mesh.QU.1920km.151026.nc"}]
+FILES = [{"kind": "file", "path": "ugrid/quad-hexagon/grid.nc"}, {"kind": "file", "path": "mpas/QU/mesh.QU.1920km.151026.nc"}, {"kind": "file", "path": "mpas/QU/mesh.QU.1920km.151026.nc", "subset": [5, 17, 3, 44, 60, 61, 100, 101, 9, 150]}]
 SRC_DERIVE = [
     "n_edge", "edge_node_connectivity", "face_edge_connectivity", "edge_face_connectivity", "node_face_connectivity", "face_face_connectivity",
     "face_lon", "face_x", "edge_lon", "edge_x", "node_x", "face_areas", "bounds", "edge_node_distances", "edge_face_distances",
@@ -68,7 +68,7 @@ def gen_source(rng):
     name, params = rng.choice(MESHES)
     spec = {"kind": "mesh", "mesh": name, "params": params, "variant": rng.choice([0, 1, 2, 3]), "jitter": rng.choice([0.0, 0.3])}
     r = rng.random()
-    if r < 0.75:
+    if r < 0.65:
         spec["prov"] = "topology"
         extra = []
         if rng.random() < 0.35:
@@ -79,10 +79,13 @@ def gen_source(rng):
             extra += ["edge_nodes"] + ([rng.choice(["edge_lonlat", "edge_xyz"])] if rng.random() < 0.6 else [])
         spec["dialect"] = {"lon360": rng.random() < 0.3, "extra": extra, "start": rng.choice([0, 1]), "xyz_scale": rng.choice([1.0, 1.0, 1.0, 2.0]), "edge_flip": rng.random() < 0.5}
     elif r < 0.88:
-        spec["prov"] = rng.choice(["vertices", "vertices_xyz"])
+        spec["prov"] = rng.choice(["vertices", "vertices_xyz", "vertices_xyz"])
     else:
         spec["prov"] = "ugrid_mem"
         spec["dialect"] = {"lon360": rng.random() < 0.5, "start": rng.choice([0, 1])}
+    if rng.random() < 0.25:
+        # the grid being sliced is itself the result of an earlier selection (nested subsets)
+        spec["subset"] = [rng.randrange(1000) for _ in range(rng.randint(3, 12))]
     return spec
 
 
